@@ -60,7 +60,7 @@ CHECKS = {
    text='Integer core: per decoder instance (as C04) and per architectural location (8 registers, 7 flags, 6 segment registers) one z3 query; loaded/stored bytes must lie inside reported memory cells for all states. x87/MMX/SSE: explicit operands, address registers and the implicit operands of maskmov/blendv/comis must be reported. 1283 obligations fail on the pinned tree (undefined flags not in the write set, shift flags pass-through, stub semantics of fxsave & co.) and are known findings.',
    note='Trusted: z3; specs/x86sem.py; the SIMD exception list. Flags the architecture leaves undefined count as modified. prefetch*/clflush operands are hints and not required.',
    ref='5 C08'),
- 'C07': dict(cat='other', tech='history-bounded SMT: the real symbolic machine (eval_instr / eval_ExprMem / emul_lines) executes store/load histories and instruction sequences; every register expression and memory read-back is proved equal to a byte-addressed sequential reference for ALL valuations of the initial symbols by z3',
+ 'C07': dict(cat='other', tech='eval_abs.rest_slice (gap finder of overlapping reads) verified from its AST by VC generation (pyvc, z3) for all bounds, 1..4 cells; history-bounded SMT: the real symbolic machine (eval_instr / eval_ExprMem / emul_lines) executes store/load histories and instruction sequences; every register expression and memory read-back is proved equal to a byte-addressed sequential reference for ALL valuations of the initial symbols by z3',
    text='Bounded in histories, unbounded in values: ~2000 store/load histories (widths 8/16/32, offsets, constant and symbolic base, overlapping reads), ~600 instruction sequences of length 1..12 compared with the sequential composition of the lifted semantics (each instruction reading its pre-state), rep/repe/repne with concrete counts incl. 0 and the 0x1000 cap. Cross-base aliasing is a fixed obligation family listed as a known finding; sequences are compared under a disjoint-bases premise.',
    note='Trusted: z3, liftvc/den.py. The alias decisions of get_mem_overlapping go through expr_simp and are not proved inductively. Termination is a bounded observation (20 s per history).',
    ref='5 C07'),
